@@ -183,6 +183,47 @@ CLAIMED["C10"] = (
     "DESIGN.md section 6 C10",
 )
 
+CLAIMED["C05"] = (
+    "Create/remove histories of variables (on all / some / reversed subdomain lists, on interfaces, with cell, "
+    "face and node dof multiplicities; removal of md-variables and of single sub-variables) are enumerated "
+    "within the bound and run on the real EquationSystem. Per history the layout clauses are evaluated on the "
+    "concrete index arrays (blocks contiguous, ordered by subdomain, interface, creation; identify_dof for "
+    "every index; out-of-range rejected) and z3 decides, for all values, that projections select exactly the "
+    "block indices of a symbolic vector, that set/get round-trips for all and for subsets of variables in "
+    "global order, that writing a subset leaves the other dofs untouched, and additive writes. Stated "
+    "plainly: the layout part is bounded-exhaustive exploration of histories, the value part is for-all.",
+    "Floats as exact reals; one fractured md-grid (3 grids); histories of length <= 2 exhaustive, length 3 sampled "
+    "(quick) / exhaustive (thorough), length 4 sampled (thorough).",
+    "symbolic execution of the dof bookkeeping with symbolic values + SMT; case split on histories",
+    "DESIGN.md section 6 C05",
+)
+CLAIMED["C06"] = (
+    "A real EquationSystem with three nonlinear equations (symbolic coefficient arrays and matrices) on a "
+    "fractured md-grid is assembled on a symbolic state in full and for every selection within the bound: "
+    "all ordered subsets of equation names (argument order permuted), grid restrictions of an equation (incl. "
+    "empty and reordered grid lists), variable subsets (md-variables, single sub-variables, reordered). z3 "
+    "decides entry-wise that the restricted Jacobian and residual are exactly the rows/columns of the full "
+    "ones, with row blocks in the order the equations were set; reported row indices per equation and "
+    "residual-only assembly are checked too.",
+    "Floats as exact reals; one equation system (14 rows, 10 dofs); selections are enumerated (case split), "
+    "entries are symbolic.",
+    "symbolic execution of EquationSystem.assemble on z3 terms + SMT; case split on selections",
+    "DESIGN.md section 6 C06",
+)
+CLAIMED["C07"] = (
+    "assemble_schur_complement_system and expand_schur_complement_solution run on a square nonlinear system "
+    "with symbolic coefficients and state for several primary/secondary splits (whole equations, swapped "
+    "argument order, grid-restricted primary equation), with an exact diagonal inverter and with the default "
+    "permuted-block-diagonal inverter (block inverse = exact cofactor inverse under det != 0). For an "
+    "ARBITRARY symbolic reduced vector x_p z3 decides the identities (J X - b)[secondary rows] = 0 and "
+    "(J X - b)[primary rows] = S x_p - rhs_S for the expanded X, hence solving the reduced system and "
+    "expanding solves the full linearized system. Counterexamples are confirmed by comparing the expanded "
+    "reduced solve with the full numpy solve.",
+    "Floats as exact reals; secondary block diagonal with non-zero entries; one 10-dof system; 4 splits.",
+    "symbolic execution of the Schur complement assembly/expansion on z3 terms + SMT",
+    "DESIGN.md section 6 C07",
+)
+
 NOT_APPLICABLE = {
     "C11": "MPFA local systems are inverted in LAPACK/numba kernels on data-dependent block structures; a symbolic inverse of the interaction-region blocks is beyond z3/cvc5 and with concrete matrices nothing quantified remains for a solver.",
     "C13": "MPSA: same obstacle as C11 with 2-3x larger local systems.",
